@@ -432,6 +432,19 @@ impl tracing::Subscriber for TraceSink {
     fn record_follows_from(&self, _: &tracing::span::Id, _: &tracing::span::Id) {}
     fn event(&self, event: &tracing::Event<'_>) {
         let mut buf = String::new();
+        if std::env::var("DV5_LOG_PRINT").is_ok() {
+            // debugging aid for replays: print the crate's log lines
+            struct All<'a>(&'a mut String);
+            impl tracing::field::Visit for All<'_> {
+                fn record_debug(&mut self, field: &tracing::field::Field, value: &dyn std::fmt::Debug) {
+                    use std::fmt::Write;
+                    let _ = write!(self.0, " {}={:?}", field.name(), value);
+                }
+            }
+            event.record(&mut All(&mut buf));
+            eprintln!("LOG {} {}:{}", event.metadata().level(), event.metadata().target(), buf);
+            return;
+        }
         event.record(&mut SinkVisitor(&mut buf));
     }
     fn enter(&self, _: &tracing::span::Id) {}
